@@ -1,4 +1,5 @@
 mod chain;
+mod dispworld;
 mod driver;
 mod evidence;
 mod gen;
@@ -11,6 +12,7 @@ mod rewardworld;
 mod rng;
 mod setup;
 mod snap;
+mod tokenworld;
 
 fn main() {
     chain::install_panic_hook();
